@@ -119,6 +119,26 @@ fn nav_strat() -> BoxedStrategy<TuiCase> {
         .boxed()
 }
 
+/// Settings-dialog sequences: tabs, long runs of item navigation (the columns tab has 27 items,
+/// the bindings and theme tabs more), column visibility and reordering at every position.
+fn settings_strat() -> BoxedStrategy<TuiCase> {
+    let rep = |c: Cmd, max: usize| (1..=max).prop_map(move |n| vec![Op::Key(c); n]);
+    let group = prop_oneof![
+        3 => prop_oneof![3 => Just(6u8), 1 => 0u8..=6].prop_map(|t| vec![Op::Key(Cmd::ToggleSettingsTab(t))]),
+        4 => rep(Cmd::NextHop, 30),
+        2 => rep(Cmd::PreviousHop, 30),
+        3 => rep(Cmd::NextHopAddress, 4),
+        3 => rep(Cmd::PreviousHopAddress, 4),
+        2 => rep(Cmd::ToggleChart, 2),
+        1 => prop_oneof![Just(Cmd::NextTrace), Just(Cmd::PreviousTrace)].prop_map(|c| vec![Op::Key(c)]),
+        1 => proptest::sample::select(ALL_CMDS.to_vec()).prop_map(|c| vec![Op::Key(c)]),
+        1 => proptest::collection::vec(syn_round(), 1..=2).prop_map(|rounds| vec![Op::Rounds { trace: 0, rounds }]),
+    ];
+    (trace_setup(), ui_setup(false), proptest::collection::vec(group, 1..=14))
+        .prop_map(|(t, ui, groups)| TuiCase { traces: vec![t], ui, ops: groups.into_iter().flatten().collect(), hash_keys: None })
+        .boxed()
+}
+
 fn strat() -> BoxedStrategy<TuiCase> {
     (proptest::collection::vec(trace_setup(), 1..=3), ui_setup(false), proptest::collection::vec(op_strat(true), 0..=40))
         .prop_map(|(traces, ui, ops)| TuiCase { traces, ui, ops, hash_keys: None })
@@ -278,6 +298,7 @@ pub fn check() -> PropertyCheck {
         subs: vec![
             Box::new(Pbt { name: "ui-ops", quick: 6_000, thorough: 600_000, strat, test, max_shrink: 3000 }),
             Box::new(Pbt { name: "ui-nav", quick: 6_000, thorough: 600_000, strat: nav_strat, test, max_shrink: 3000 }),
+            Box::new(Pbt { name: "ui-settings", quick: 3_000, thorough: 200_000, strat: settings_strat, test, max_shrink: 3000 }),
         ],
     }
 }
